@@ -596,7 +596,13 @@ func HashMapOfValueGet(vm *Thread, hashMap *HashMapOfValue, key value.Value) (va
 		return value.Undefined, value.Undefined
 	}
 
-	return hashMap.Table[index].Value(), value.Undefined
+	entry := hashMap.Table[index]
+	if entry.Key().IsUndefined() {
+		// empty or deleted slot, the key is not present
+		return value.Undefined, value.Undefined
+	}
+
+	return entry.Value(), value.Undefined
 }
 
 // Check if the given pair is present in the map
